@@ -48,7 +48,15 @@ Record config := {
 }.
 
 (* ------------------------------------------------------------------ application decisions *)
-Inductive verdict := VKeep | VCode (c : N) | VRaise.
+(* what a failing callback raises, by the arm of Server.handle() that sees it:
+     FException  an Exception subclass            -> "421 4.3.0 Unhandled system error", re-raised
+     FTimeout    gevent.Timeout (a BaseException) -> caught by handle()'s `except Timeout`:
+                                                     "421 4.4.2 Connection timed out", ConnectionLost
+     FKill       GreenletExit / KeyboardInterrupt / SystemExit (the greenlet is being killed):
+                                                     caught by nothing, no reply, the session ends *)
+Inductive xfamily := FException | FTimeout | FKill.
+
+Inductive verdict := VKeep | VCode (c : N) | VRaise (f : xfamily).
 
 Definition code_ok (c : N) : bool := (100 <=? c) && (c <=? 599).   (* code_pattern ^[12345]\d\d$ *)
 
@@ -57,8 +65,13 @@ Definition apply_verdict (v : verdict) (cur : N) : option N :=
   match v with
   | VKeep => Some cur
   | VCode c => if code_ok c then Some c else None
-  | VRaise => None
+  | VRaise _ => None
   end.
+
+(* the family of what a verdict raises when apply_verdict = None (ValueError of the Reply.code
+   setter for an impossible code) *)
+Definition fam_of (v : verdict) : xfamily :=
+  match v with VRaise f => f | _ => FException end.
 
 Inductive qres := QOk | QFail (c : N).      (* handoff(): id  |  QueueError/RelayError whose reply has code c
                                                (an error without reply: c = 0) *)
@@ -245,10 +258,15 @@ Inductive event :=
 (* how a `_command_*` call leaves:  normally | StopIteration | UnicodeDecodeError | other exception *)
 Inductive exc := XNone | XStop | XUnicode | XExn.
 
-Record res := { r_st : sstate; r_replies : list N; r_events : list event; r_exc : exc }.
+Record res := { r_st : sstate; r_replies : list N; r_events : list event; r_exc : exc;
+                r_fam : xfamily    (* meaningful when r_exc = XExn *) }.
 
 Definition mk (st : sstate) (rs : list N) (es : list event) (x : exc) : res :=
-  {| r_st := st; r_replies := rs; r_events := es; r_exc := x |}.
+  {| r_st := st; r_replies := rs; r_events := es; r_exc := x; r_fam := FException |}.
+
+(* a callback raised *)
+Definition mkx (st : sstate) (rs : list N) (es : list event) (f : xfamily) : res :=
+  {| r_st := st; r_replies := rs; r_events := es; r_exc := XExn; r_fam := f |}.
 
 (* one of the canned replies (bad_sequence, bad_arguments, unknown_command, ...) and return *)
 Definition just (st : sstate) (c : N) : res := mk st [c] [] XNone.
@@ -401,7 +419,7 @@ Definition check_size (ps : params) (x : exts) : size_check :=
 (* _command_BANNER_ + SmtpSession.BANNER_ *)
 Definition command_BANNER (vb : verdict) (st : sstate) : res :=
   match apply_verdict vb 220 with
-  | None => mk st [] [EvCall KBanner [] [] None] XExn
+  | None => mkx st [] [EvCall KBanner [] [] None] (fam_of vb)
   | Some c =>
       let st' := if c =? 220 then with_sv st (set_bannered true (sv st)) else st in
       mk st' [c] [EvCall KBanner [] [] (Some c)] (close_exc c)
@@ -417,7 +435,7 @@ Definition command_EHLO (st : sstate) (arg : option bytes) (v : verdict) : res :
     | None => mk st [] [] XUnicode
     | Some _ =>
         match apply_verdict v 250 with
-        | None => mk st [] [EvCall KEhlo a [] None] XExn
+        | None => mkx st [] [EvCall KEhlo a [] None] (fam_of v)
         | Some c =>
             let ed1 := set_e_esmtp true (ed st) in
             let ed2 := if c =? 250 then set_env None (set_e_ehlo (Some a) ed1) else ed1 in
@@ -436,7 +454,7 @@ Definition command_HELO (st : sstate) (arg : option bytes) (v : verdict) : res :
     | None => mk st [] [] XUnicode
     | Some _ =>
         match apply_verdict v 250 with
-        | None => mk st [] [EvCall KHelo a [] None] XExn
+        | None => mkx st [] [EvCall KHelo a [] None] (fam_of v)
         | Some c =>
             let ed2 := if c =? 250 then set_env None (set_e_ehlo (Some a) (ed st)) else ed st in
             let sv2 := if c =? 250 then set_ehlo (Some a) (reset_tx (sv st)) else sv st in
@@ -482,7 +500,7 @@ Definition command_AUTH (st : sstate) (arg : option bytes) (resps : list bytes) 
         | GRaise => mk st inter [] XExn
         | GOk cid =>
             match apply_verdict v 235 with
-            | None => mk st inter [EvCall KAuth cid [] None] XExn
+            | None => mkx st inter [EvCall KAuth cid [] None] (fam_of v)
             | Some c =>
                 let ed2 := if c =? 235 then set_e_auth (Some cid) (ed st) else ed st in
                 let sv2 := if c =? 235 then set_authed true (sv st) else sv st in
@@ -516,7 +534,7 @@ Definition command_MAIL (st : sstate) (arg : option bytes) (v : verdict) : res :
                     | SzNoExt => just st 504
                     | SzOk =>
                         match apply_verdict v 250 with
-                        | None => mk st [] [EvCall KMail addr ps None] XExn
+                        | None => mkx st [] [EvCall KMail addr ps None] (fam_of v)
                         | Some c =>
                             let ed2 := if c =? 250 then set_env (Some (addr, [])) (ed st) else ed st in
                             let sv2 := set_mail (s_mail (sv st) || (c =? 250)) (sv st) in
@@ -547,7 +565,7 @@ Definition command_RCPT (st : sstate) (arg : option bytes) (v : verdict) : res :
                   else
                     let ps := gather_params rest in
                     match apply_verdict v 250 with
-                    | None => mk st [] [EvCall KRcpt addr ps None] XExn
+                    | None => mkx st [] [EvCall KRcpt addr ps None] (fam_of v)
                     | Some c =>
                         if c =? 250 then
                           match e_env (ed st) with
@@ -598,12 +616,22 @@ Definition session_HAVE_DATA (st : sstate) (it : item) : edge * list event * opt
           end
   end.
 
+(* which exception family left SmtpSession.HAVE_DATA when session_HAVE_DATA says None *)
+Definition have_data_fam (st : sstate) (it : item) : xfamily :=
+  match apply_verdict (it_v2 it) 250 with
+  | None => fam_of (it_v2 it)
+  | Some _ => match e_env (ed st) with
+              | None => FException                                  (* AssertionError *)
+              | Some _ => fam_of (it_v3 it)
+              end
+  end.
+
 (* _get_message_data (fixed: _check_close_code(reply) after the reset) *)
 Definition get_message_data (st : sstate) (it : item) (pre_replies : list N) (pre_events : list event) : res :=
   let '(e2, evs, oc) := session_HAVE_DATA st it in
   let arg := if too_big (ex st) (it_wire it) then [] else it_data it in
   match oc with
-  | None => mk (with_ed st e2) pre_replies (pre_events ++ evs ++ [EvCall KHaveData arg [] None]) XExn
+  | None => mkx (with_ed st e2) pre_replies (pre_events ++ evs ++ [EvCall KHaveData arg [] None]) (have_data_fam st it)
   | Some c =>
       mk {| sv := reset_tx (sv st); ex := ex st; ed := e2 |}
          (pre_replies ++ [c]) (pre_events ++ evs ++ [EvCall KHaveData arg [] (Some c)]) (close_exc c)
@@ -615,7 +643,7 @@ Definition command_DATA (st : sstate) (arg : option bytes) (it : item) : res :=
   else if negb (s_mail (sv st)) || negb (s_rcpt (sv st)) then just st 503
   else
     match apply_verdict (it_v1 it) 354 with
-    | None => mk st [] [EvCall KData [] [] None] XExn
+    | None => mkx st [] [EvCall KData [] [] None] (fam_of (it_v1 it))
     | Some c =>
         if is_close c then mk st [c] [EvCall KData [] [] (Some c)] XStop
         else if c =? 354 then get_message_data st it [c] [EvCall KData [] [] (Some c)]
@@ -684,19 +712,28 @@ Definition handle_command (st : sstate) (it : item) : res :=
 (* ------------------------------------------------------------------ handle(): one loop iteration *)
 Inductive fin :=
 | Continue       (* the loop goes on to _recv_command *)
-| Closed         (* StopIteration: CLOSE handler (absent), break; handle() returns *)
+| Closed         (* StopIteration: CLOSE handler (absent), break; handle() returns -
+                   or ConnectionLost raised after the 421 of a callback's Timeout *)
 | Crashed.       (* an exception left handle() (SmtpEdge.handle closes the socket) *)
 
 Record out := { o_replies : list N; o_events : list event; o_fin : fin }.
 
-(* the except arms of handle(): UnicodeDecodeError -> bad_arguments then re-raise,
-   Exception -> unhandled_error then re-raise *)
+(* the except arms of handle(): UnicodeDecodeError -> bad_arguments then re-raise;
+   Exception -> unhandled_error then re-raise; a gevent.Timeout (BaseException) passes those
+   arms and is caught by the outer `except Timeout`: timed_out (421 4.4.2), ConnectionLost, which
+   SmtpEdge.handle swallows (the session is closed, no exception leaves it); a GreenletExit-like
+   BaseException passes everything: no reply, it leaves handle() *)
 Definition finish (r : res) : sstate * out :=
   match r_exc r with
   | XNone => (r_st r, {| o_replies := r_replies r; o_events := r_events r; o_fin := Continue |})
   | XStop => (r_st r, {| o_replies := r_replies r; o_events := r_events r; o_fin := Closed |})
   | XUnicode => (r_st r, {| o_replies := r_replies r ++ [501]; o_events := r_events r; o_fin := Crashed |})
-  | XExn => (r_st r, {| o_replies := r_replies r ++ [421]; o_events := r_events r; o_fin := Crashed |})
+  | XExn =>
+      match r_fam r with
+      | FException => (r_st r, {| o_replies := r_replies r ++ [421]; o_events := r_events r; o_fin := Crashed |})
+      | FTimeout => (r_st r, {| o_replies := r_replies r ++ [421]; o_events := r_events r; o_fin := Closed |})
+      | FKill => (r_st r, {| o_replies := r_replies r; o_events := r_events r; o_fin := Crashed |})
+      end
   end.
 
 Definition step (st : sstate) (it : item) : sstate * out := finish (handle_command st it).
@@ -908,3 +945,12 @@ Definition out_of_order (a : ast) (l : line) : bool :=
 
 Definition resets (l : line) : bool :=
   match classify l with CRset | CEhlo | CHelo => true | _ => false end.
+
+(* a handler callback raised during this command *)
+Definition ev_raised (e : event) : bool :=
+  match e with EvCall _ _ _ None => true | _ => false end.
+Definition raised (o : out) : bool := existsb ev_raised (o_events o).
+
+(* one of the application's decisions for this line is "the greenlet is killed here" *)
+Definition is_kill (v : verdict) : bool := match v with VRaise FKill => true | _ => false end.
+Definition has_kill (it : item) : bool := is_kill (it_v1 it) || is_kill (it_v2 it) || is_kill (it_v3 it).
